@@ -44,6 +44,8 @@ def snapshot(root):
                 snap[rel] = ('l', os.readlink(p))
             elif os.path.isdir(p):
                 snap[rel] = ('d',)
+            elif not os.path.isfile(p):
+                snap[rel] = ('special', os.lstat(p).st_mode)   # a FIFO, a socket, a device: never opened (reading one may never return)
             else:
                 try:
                     b = open(p, 'rb').read()
